@@ -25,7 +25,10 @@ BUDGET = {
 
 # properties whose native run is repeated on the `plain` build flavour, with
 # this fraction of the budget
-PLAIN_TOO = {"C05": 0.5, "C14": 0.5}
+PLAIN_TOO = {"C05": ("plain", 0.5), "C14": ("plain", 0.5),
+             # compile-time +avx2: the dispatcher's constant-true path and any
+             # code under cfg(target_feature = "avx2")
+             "C06": ("avx2", 0.3), "C07": ("avx2", 0.3), "C08": ("avx2", 0.2), "C10": ("avx2", 0.2)}
 
 RULE = {
     "C05": "Episodes (1-2 simulated caller threads, 3-60 operations over the whole public API incl. low-level searchers, "
@@ -250,13 +253,16 @@ def run_property(prop, tier, seed):
     # assertions and no overflow checks; what is a harmless debug_assert panic
     # in the dbg flavour may be an over-read or a missing documented panic there
     if prop in PLAIN_TOO:
-        exe2 = D.build("plain")
-        total2 = max(64, int(total * PLAIN_TOO[prop]))
+        flavour2, frac2 = PLAIN_TOO[prop]
+        exe2 = D.build(flavour2)
+        total2 = max(64, int(total * frac2))
         res2 = D.run_workers(exe2, prop, seed, total2, chunk, timeout_per_chunk=(90 if tier == "quick" else 900),
                              extra_args=extra)
         D.cleanup_outs(res2)
         cov["plain_flavour"] = {
-            "what": "same profile on the build without debug assertions / overflow checks (the shipped configuration)",
+            "flavour": flavour2,
+            "what": ("same profile on the build without debug assertions / overflow checks (the shipped configuration)"
+                     if flavour2 == "plain" else "same profile on the build with -Ctarget-feature=+avx2 (compile-time AVX2)"),
             "families": res2.families, "executions": res2.executions,
             "operations": int(res2.stats.get("ops", 0)) + int(res2.stats.get("inner_evals", 0)),
             "documented_panics_seen": res2.stats.get("lib_panics_documented", 0),
@@ -267,15 +273,15 @@ def run_property(prop, tier, seed):
             mn, text = D.handle_violation(exe2, prop, seed, res2.violation)
             with open(mn) as f:
                 famj = json.load(f)
-            famj["substrate"] = {"flavours": ["plain"]}
+            famj["substrate"] = {"flavours": [flavour2]}
             with open(mn, "w") as f:
                 json.dump(famj, f)
             known = D.known_match(prop, text)
             if known:
                 D.log("KNOWN-FINDING: property=%s %s" % (prop, known.get("what", text)))
             else:
-                D.log("violation: [plain flavour] " + text)
-                cov["violation"] = "[plain flavour] " + text
+                D.log("violation: [%s flavour] %s" % (flavour2, text))
+                cov["violation"] = "[%s flavour] %s" % (flavour2, text)
                 D.write_evidence(prop, tier, seed, cov, time.time() - t0, 1, ASSUME)
                 print("VIOLATION property=%s replay=%s" % (prop, mn), flush=True)
                 return 1
